@@ -78,6 +78,19 @@ MODULES["C10"] = ["Boario.Properties.C10", "Boario.Properties.C10Dt"]
 MODULES["C18"] = ["Boario.Properties.C18", "Boario.Properties.C18Run"]
 MODULES["C04"] = ["Boario.Properties.C04", "Boario.Properties.LayoutThm", "Boario.Properties.Slices"]
 
+
+# non-vacuity witnesses (Properties/NonVacuity.lean): concrete inputs meeting the hypotheses of the property theorems
+NONVACUITY = {
+    "C01": ["Gen.monotony_never_incremented", "loop_eq_stepwise", "NV.tb0_valid", "NV.cfgPsi_valid", "NV.cfgBase_valid", "NV.capital_nonneg", "NV.rest_1000"],
+    "C03": ["NV.param_hyps"], "C06": ["NV.param_hyps"], "C14": ["NV.param_hyps"],
+    "C08": ["NV.evReb_rebuildHyp"], "C09": ["NV.fresh_trackers"], "C10": ["Gen.monotony_never_incremented", "NV.first_step_ok"],
+    "C11": ["NV.init_inv"], "C13": ["NV.unit_change_hyps", "NV.closeAgree_initial"],
+    "C19": ["NV.shift_40"], "C20": ["NV.events_accepted", "NV.init_inv", "NV.param_hyps"],
+}
+for _pid, _names in NONVACUITY.items():
+    THEOREMS[_pid] = THEOREMS[_pid] + [n for n in _names if n not in THEOREMS[_pid]]
+    MODULES[_pid] = MODULES[_pid] + ["Boario.Properties.NonVacuity"] + (["Boario.Properties.LoopThm"] if _pid in ("C01", "C10") else [])
+
 # scenario streams: (stream name, number of scenarios quick, thorough)
 STREAMS = {
     "C02": [("shocked", 14, 200), ("shortage", 10, 150), ("multi", 8, 100), ("mild", 6, 80), ("crash", 4, 60), ("earlydt", 8, 80)],
@@ -126,11 +139,11 @@ STEP_ORACLES.update({"C04": ["C04", "C08"], "C02": ["C02"], "C20": ["C20"], "C08
 # per-run oracles, construction obligations, paired-run oracles (names resolved in harness/runner.py)
 RUN_ORACLES = {"C01": ["c01"], "C05": ["c05_run"], "C07": ["c07_capital"], "C08": ["c08_init"], "C11": ["c11_run"]}
 INIT_OBLIGATIONS = {"C01": ["mkparams"], "C02": ["mkparams"], "C03": ["mkparams"], "C06": ["mkparams"], "C07": ["mkparams", "trackerinit"], "C08": ["trackerinit"], "C13": ["trackerinit"], "C18": ["mkparams"]}
-PAIRED = {"C10": ["c10_prefix"], "C11": ["c11_order"], "C13": ["c13_units"], "C18": ["c18_variants", "c18_orders"],
+PAIRED = {"C01": ["long_loop_c01"], "C05": ["c05_loop"], "C10": ["c10_prefix", "long_loop"], "C11": ["c11_order"], "C13": ["c13_units"], "C18": ["c18_variants", "c18_orders"],
           "C19": ["c19_shift", "c19_late"], "C17": ["c17_determinism"]}
 
 # properties whose Lean side includes tables regenerated from the source on every run
-GEN = {"C16": True, "C17": True, "C02": True, "C14": True, "C04": True, "C11": True, "C05": True, "C19": True}
+GEN = {"C16": True, "C17": True, "C02": True, "C14": True, "C04": True, "C11": True, "C05": True, "C19": True, "C01": True, "C10": True}
 
 NONTRIVIAL = {
     "C12": ("weights", "non-uniform weights or an invalid input"),
